@@ -178,9 +178,15 @@ CLAIMS = {
              "alloc_destroys_fallback_witness (decide) documents the defect of the pinned guards (repaired in /repo). "
              "On the real code: ring histories on 4..6 slots with the fallback slot compared byte for byte across every "
              "start, incl. starts that lose power or have invalid parameters.",
-        note="No-wrap assumption SeqRoom (sequence numbers stay 2 allocations below 0xFFFFFFFF). The machine abstracts "
-             "data regions away; that start_update's flash operations stay inside the chosen pair is C08's "
-             "start_ops_in_pair. A native closure of the machine (driver command `closure N`) is model-checking support: "
+        note="No-wrap assumption SeqRoom (sequence numbers stay 2 allocations below 0xFFFFFFFF). The machine is tied to the "
+             "flash-level model by theorem (Props/RingRefine.lean): start_refines (after every prefix of start_update's "
+             "exact flash operation list the headers read from flash are the machine's header effects up to a monotone "
+             "index map), cancel_refines, recover_refines, complete_refines, copyDone/bootMark_refines, "
+             "flash_reachable_ringInv (along any flash-level history of those operation lists with crashes at operation "
+             "boundaries the on-flash headers are a Reachable machine state), flash_alloc_spares_fallback. Exact M-level "
+             "operation lists are proved for start_update, cancel_all and the marks; for try_recover's resumable branch "
+             "and check_and_mark_done the operation lists are mirrored definitions bounded by C08's footprint theorems. "
+             "That start_update's flash operations stay inside the chosen pair is C08's start_ops_in_pair. A native closure of the machine (driver command `closure N`) is model-checking support: "
              "3805 / 46283 / 222954 reachable states for N = 4 / 5 / 6, all predicates hold.",
         design_ref="DESIGN.md section 6 (C05)"),
     "C12": dict(
